@@ -177,10 +177,33 @@ func (c *Ctx) callStatic(st *State, x *ast.CallExpr, fn *types.Func, recvExpr as
 		fn = fn.Origin()
 		name = fullName(fn)
 	}
+	if strings.HasPrefix(name, "sync/atomic.") && recvExpr != nil {
+		// methods of atomic.Int64 / atomic.Pointer[T] ... : the cell is not modelled (reads are arbitrary, writes ignored)
+		c.trusted["fields of sync/atomic value types (atomic.Int64, atomic.Pointer, ...) are not modelled: loads return arbitrary values"] = true
+		for _, a := range x.Args {
+			c.evalMaybe(st, a)
+		}
+		rs := sig.Results()
+		if rs.Len() == 0 {
+			return Tuple{}
+		}
+		var facts []Term
+		rt := rs.At(0).Type()
+		if !validType(rt) || c.opaqueType(rt) {
+			return Opaque{rt}
+		}
+		v := c.fresh(rt, "atomicload", &facts)
+		c.refsBounded(v, st.alloc, &facts)
+		st.assume(c, And(facts...))
+		return v
+	}
 	if strings.HasPrefix(name, "sync.") {
 		if h, ok := prelude[name]; ok {
 			return h(c, st, x, nil)
 		}
+	}
+	if c.isLoggingCallee(fn) {
+		return c.loggingChain(st, x, fn)
 	}
 	// receiver
 	var recv Val
@@ -196,6 +219,30 @@ func (c *Ctx) callStatic(st *State, x *ast.CallExpr, fn *types.Func, recvExpr as
 	}
 	pk, fd, fc := c.prog.lookupFunc(fn)
 	args := c.evalArgs(st, x, sig)
+	// interface whose values are known to be pointers to one concrete type ("impl T" in its type declaration):
+	// the call is resolved to T's method contract
+	if sig.Recv() != nil && recv != nil {
+		if _, isIface := sig.Recv().Type().Underlying().(*types.Interface); isIface {
+			if n, td := c.ghostOwner(sig.Recv().Type()); td != nil && td.Impl != "" {
+				if ipk := c.prog.byPath[n.Obj().Pkg().Path()]; ipk != nil && ipk.contracts != nil {
+					key := td.Impl + "." + fn.Name()
+					if ifc, ifd := ipk.contracts.Funcs[key], ipk.funcs[key]; ifc != nil && ifd != nil {
+						if obj, ok := ipk.info.Defs[ifd.Name].(*types.Func); ok {
+							if tn, ok := ipk.types.Scope().Lookup(td.Impl).(*types.TypeName); ok {
+								rp := Ptr{refOf(recv), c.idx(0), tn.Type()}
+								if isig := obj.Type().(*types.Signature); isig.Recv() != nil {
+									if pt, isPtr := isig.Recv().Type().(*types.Pointer); isPtr {
+										rp.Elem = pt.Elem()
+									}
+								}
+								return c.applyContractSig(st, x, ipk, obj.Type().(*types.Signature), ifd, ifc, rp, args, key)
+							}
+						}
+					}
+				}
+			}
+		}
+	}
 	if fd != nil && fd.Body != nil && c.mayInline(fn, name) {
 		return c.inlineCall(st, x, pk, fd, recv, args)
 	}
@@ -449,7 +496,11 @@ func widthOfFloat(t types.Type) int {
 func (c *Ctx) forallIdx(body func(i Term) Term) Term {
 	i := c.sym("k")
 	it := Term{i, c.idxSort()}
-	return Term{fmt.Sprintf("(forall ((%s %s)) %s)", i, c.idxSort(), body(it).S), SBool}
+	b := body(it).S
+	if pats := c.choosePatterns(b, []string{i}); pats != "" {
+		return Term{fmt.Sprintf("(forall ((%s %s)) (! %s %s))", i, c.idxSort(), b, pats), SBool}
+	}
+	return Term{fmt.Sprintf("(forall ((%s %s)) %s)", i, c.idxSort(), b), SBool}
 }
 
 func (c *Ctx) stringToBytes(st *State, s Term, elem types.Type) Val {
